@@ -59,8 +59,9 @@ int hex_get_byte(const char *s, const char **p)
 {
     next_line:
 	if (s) {
-		char *q = strchr(s, ':');
-		if (q)
+		/* skip the address, but only if it is on this line */
+		const char *q = s + strcspn(s, ":\n");
+		if (':' == *q)
 			s = q+1;
 	} else {
 		s = *p;
